@@ -30,7 +30,9 @@ HANDLERS = ["SIG_DFL", "SIG_IGN", "default_int_handler", "pyfunc"]
 @st.composite
 def s_run(draw):
     kind = draw(st.sampled_from(["return", "raise", "fire", "fail", "never", "fire", "fail"]))
-    step = {"op": "run", "kind": kind, "timeout": draw(st.sampled_from([1, 2, 3, 5])),
+    step = {"op": "run", "kind": kind, "timeout": draw(st.sampled_from([1, 2, 3, 5, 0.5, 2.5])),
+            # f fires the Deferred an earlier, unfinished run of this spinner was waiting for (if there is one)
+            "fire_old": draw(st.sampled_from([False, False, False, True])),
             "t": draw(st.sampled_from(TIMES)) if kind in ("fire", "fail") else None,
             "value": draw(st.sampled_from([None, 0, "v", (1, 2)])),
             "extra": draw(st.lists(st.sampled_from(TIMES + [7]), max_size=3)),
@@ -99,6 +101,7 @@ def run_case(spec):
         junk_pending = 0
         nruns = 0
         previous_results = []
+        unfinished = []          # Deferreds of earlier runs that ended (timeout / interrupt) before they fired
         had_interrupt = had_left = False
         for n, step in enumerate(spec["history"]):
             if step["op"] == "clear_junk":
@@ -127,7 +130,16 @@ def run_case(spec):
             fired_extra = []
             inner = []
 
-            def f(step=step, base=base):
+            fired_old = []
+            current = []
+
+            def f(*args, **kwargs):
+                if args != (1, "two") or kwargs != {"k": 3}:
+                    raise AssertionError("run() did not hand over its extra arguments: %r %r" % (args, kwargs))
+                step_ = step
+                if step_.get("fire_old") and unfinished:
+                    fired_old.append(True)
+                    unfinished.pop(0).callback("STALE")
                 for j, dly in enumerate(step["extra"]):
                     reactor.callLater(dly, fired_extra.append, j)
                 for j in range(step["selectables"]):
@@ -145,6 +157,7 @@ def run_case(spec):
                 if k == "raise":
                     raise UserError("sync")
                 d = defer.Deferred()
+                current.append(d)
                 if k == "fire":
                     reactor.callLater(step["t"], d.callback, step["value"])
                 elif k == "fail":
@@ -154,7 +167,7 @@ def run_case(spec):
                 reactor.interrupt_at(base + step["interrupt"])
             fired_from = len(reactor.fired)
             try:
-                res = ("value", spinner.run(step["timeout"], f))
+                res = ("value", spinner.run(step["timeout"], f, 1, "two", k=3))
             except Hang:
                 raise
             except BaseException as e:
@@ -171,6 +184,13 @@ def run_case(spec):
                 for name in pre:
                     if signal.getsignal(getattr(signal, name)) != pre[name]:
                         vs.append(V("restore", "signal-after-StaleJunkError", "%s handler changed by a refused run" % name))
+                if reactor.stop != original_stop:
+                    vs.append(V("restore", "reactor.stop-after-StaleJunkError", "reactor.stop is %r after a refused run, was %r" % (reactor.stop, original_stop)))
+                    reactor.stop = original_stop
+                if reactor.getDelayedCalls() or reactor.running:
+                    vs.append(V("restore", "reactor-after-StaleJunkError", "a refused run left %d delayed calls (running=%r)" % (len(reactor.getDelayedCalls()), reactor.running)))
+                    for c in reactor.getDelayedCalls():
+                        c.cancel()
                 # the interrupt we scheduled is moot
                 continue
             admissible, ends, info = model_run(step)
@@ -189,6 +209,13 @@ def run_case(spec):
                 elif order[:1] == ["result"]:
                     admissible = {("value", step["value"]) if step["kind"] == "fire" else ("raise", "UserError")}
             wrong_result = res not in admissible
+            if wrong_result and fired_old:
+                # the callbacks an earlier run left on its Deferred act on this run (its result, its timeout call)
+                vs.append(V("result", "stale-deferred-of-an-earlier-run", "step %d: f fired the Deferred an earlier, timed-out run was waiting for; run() gave %r, "
+                            "its own function's result admits %s" % (n, res, sorted(map(repr, admissible)))))
+                break
+            if current and res in (("raise", "TimeoutError"), ("raise", "NoResultError")) and not current[0].called:
+                unfinished.append(current[0])
             if wrong_result:
                 want = sorted(map(repr, admissible))
                 if res in previous_results:
